@@ -227,6 +227,48 @@ def build():
     plan.target(Contract("xrefs:CellRange._initialize_table_data", entry=itd_entry, ensures=[itd_post], safety="fork",
                          opaque={"{name: self._table_names.count(name) == 1 for name in self._table_names}": unique_map}))
 
+    # ------------------------------------------------------------------ header labels: which cell names a column / a row
+    # _column_data(table, col) is the displayed text of the cell in the BOTTOM header row of that column, _row_data(table, row) that of
+    # the cell in the LAST header column of that row (the cell adjacent to the body), for any number of header rows / columns.
+    LBL = z3.Function("C09_LABEL", Int, Int, Int, Str)   # table id, row, col -> displayed text of the cell
+
+    class LabelRowV(Custom):
+        def __init__(self, tid, row):
+            self.tid, self.row = tid, row
+
+        def getitem(self, ex, idx, line):
+            return PObj("CellV", {"formatted_value": SStr(LBL(self.tid, self.row, T(idx)))})
+
+    class LabelGridV(Custom):
+        def __init__(self, tid):
+            self.tid = tid
+
+        def getitem(self, ex, idx, line):
+            return LabelRowV(self.tid, T(idx))
+
+    class TableDataV(Custom):
+        def getitem(self, ex, idx, line):
+            return LabelGridV(T(idx))
+
+    def lbl_entry(which):
+        def entry(ex):
+            nhr, nhc = ex.fresh("int", "num_header_rows"), ex.fresh("int", "num_header_cols")
+            ex.assume(z3.And(T(nhr) >= 1, T(nhc) >= 1))
+            env = {"self": PObj("NameCacheV", {"model": PObj("ModelL", {"_table_data": TableDataV(), "g_nhr": nhr, "g_nhc": nhc})}),
+                   "table_id": ex.fresh("int", "table_id"), which: ex.fresh("int", which), "g_nhr": nhr, "g_nhc": nhc}
+            ex.assume(T(env[which]) >= 0)
+            return env
+        return entry
+    ctx.method_models[("ModelL", "num_header_rows")] = lambda ex, o, a, k, l: o.fields["g_nhr"]
+    ctx.method_models[("ModelL", "num_header_cols")] = lambda ex, o, a, k, l: o.fields["g_nhc"]
+    srch_lbl = lambda plan_, c: {"custom": "search_labels", "native_module": plan_.native_module}
+    plan.target(Contract("xrefs:ScopedNameRefCache._column_data", entry=lbl_entry("col"), safety="fork", search=srch_lbl,
+                         ensures=[lambda ex, env: lift(env["result"]) == LBL(T(env["table_id"]), T(env["g_nhr"]) - 1, T(env["col"]))
+                                  if isinstance(env["result"], SStr) else z3.BoolVal(False)]))
+    plan.target(Contract("xrefs:ScopedNameRefCache._row_data", entry=lbl_entry("row"), safety="fork", search=srch_lbl,
+                         ensures=[lambda ex, env: lift(env["result"]) == LBL(T(env["table_id"]), T(env["row"]), T(env["g_nhc"]) - 1)
+                                  if isinstance(env["result"], SStr) else z3.BoolVal(False)]))
+
     # header labels are cached: Table.write must invalidate the cache exactly for writes into the header area (C12's Table.write contract, re-verified)
     from contracts import C12
     p12 = C12.build()
@@ -247,6 +289,9 @@ def build():
         "cross-table nodes (UUID -> table id), whole-row/column tracts, header-label scoping and quoting of hostile names: bounded stand-in only",
     ]
     plan.trusted += ["pyvc AST->SMT translation (cross-checked against CPython)", "z3 5.1.0 (quantified lemmas)", "cvc5 1.0.3"]
+    for c_ in plan.targets:
+        if getattr(c_, "search", None) is None and getattr(c_, "home", plan) is plan:
+            c_.search = lambda plan_, c: {"custom": "search_refs", "native_module": plan_.native_module}
     plan.level = "other"
     plan.explanation = ('Mixed: coordinate resolution (node_to_ref), the qualification chosen by expand_ref, the A1 text of cell ranges and the resolver lemmas (any number of sheets/tables) are proved; header labels, whole-row/column tracts, quoting and rename/relabel histories are a bounded stand-in with an independent resolver.')
     return plan
